@@ -550,9 +550,40 @@ pub fn run_free(sc: &ThreadScenario, suts: &[Option<TSut>]) -> Vec<Vec<Vec<R>>> 
     r
 }
 
-/// `simctl miri-run <seed> <from> <to> [replay-file]`: reduced scenarios,
+/// The same operations, thread after thread, on the calling thread (used to
+/// tell whether an error reported by Miri needs concurrency to appear).
+pub fn run_seq(sc: &ThreadScenario, suts: &[Option<TSut>]) -> Vec<Vec<Vec<R>>> {
+    let slots: Mutex<Vec<Option<InFlight>>> = Mutex::new((0..sc.slots).map(|_| None).collect());
+    let counters = Mutex::new(Counters::default());
+    let mut results = Vec::new();
+    {
+        let env = Env { suts, fixed: &sc.fixed_hays, slots: &slots, counters: &counters };
+        // producers first so that every ResumeIter finds its iterator
+        let mut order: Vec<(usize, usize)> = Vec::new();
+        for pass in 0..2 {
+            for (t, ops) in sc.threads.iter().enumerate() {
+                for (i, op) in ops.iter().enumerate() {
+                    let is_resume = matches!(op, Op::ResumeIter { .. });
+                    if (pass == 0) != is_resume {
+                        order.push((t, i));
+                    }
+                }
+            }
+        }
+        let mut res: Vec<Vec<Vec<R>>> = sc.threads.iter().map(|t| vec![Vec::new(); t.len()]).collect();
+        let mut bufs: Vec<Vec<Vec<u8>>> = sc.threads.iter().map(|_| vec![Vec::with_capacity(256), Vec::with_capacity(256)]).collect();
+        for (t, i) in order {
+            res[t][i] = exec_op(&env, None, &mut bufs[t], &sc.threads[t][i], t);
+        }
+        results.append(&mut res);
+    }
+    slots.lock().unwrap().clear();
+    results
+}
+
+/// `simctl miri-run <seed> <from> <to> [replay-file|-] [seq]`: reduced scenarios,
 /// free-running threads, results compared with the sequential reference.
-pub fn miri_run(seed: u64, from: u64, to: u64, replay_file: Option<&str>) -> i32 {
+pub fn miri_run(seed: u64, from: u64, to: u64, replay_file: Option<&str>, sequential: bool) -> i32 {
     silence_panics();
     let mut bad = 0;
     let scenarios: Vec<(u64, ThreadScenario)> = match replay_file {
@@ -582,7 +613,7 @@ pub fn miri_run(seed: u64, from: u64, to: u64, replay_file: Option<&str>) -> i32
                 continue;
             }
         };
-        let got = run_free(&sc, &suts);
+        let got = if sequential { run_seq(&sc, &suts) } else { run_free(&sc, &suts) };
         drop(suts);
         let nops: usize = sc.threads.iter().map(|t| t.len()).sum();
         match compare(&sc, &want, &got, "concurrent-result-differs", "on the shared searcher with free-running threads") {
